@@ -69,7 +69,7 @@ def token_rows(tf, tokens) -> List[list]:
 
 
 def record_lex(text: str, dialect: str, templater: str, fname: str = "<string>", tid: str = "",
-               overrides: Optional[dict] = None, context: Optional[dict] = None) -> List[Dict[str, Any]]:
+               overrides: Optional[dict] = None, context: Optional[dict] = None, lex: bool = True) -> List[Dict[str, Any]]:
     """Template + lex `text`; one trace per rendered variant (or one Crash trace)."""
     from sqlfluff.core.errors import SQLFluffSkipFile
     from sqlfluff.core.linter import linter as linter_mod
@@ -94,6 +94,9 @@ def record_lex(text: str, dialect: str, templater: str, fname: str = "<string>",
         return [dict(base, id=tid + "#tmp", events=[{"ev": "TemplateFail", "violations": tmp_v}])]
     for k, tf in enumerate(rendered.templated_variants):
         events = [dict(template_event(tf), ev="Template", variant=k, tmp=len(tmp_v))]
+        if not lex:
+            out.append(dict(base, id=f"{tid}#v{k}", events=events))
+            continue
         try:
             tokens, lxr = linter_mod.Lexer(config=config).lex(tf)
             events.append({"ev": "Lex", "toks": token_rows(tf, tokens),
@@ -114,12 +117,17 @@ def _one(item):
     return record_lex(text, dialect, templater, fname=fname, tid=tid, overrides=overrides)
 
 
-def record_many(items) -> List[Dict[str, Any]]:
+def _one_nolex(item):
+    text, dialect, templater, fname, tid, overrides = item
+    return record_lex(text, dialect, templater, fname=fname, tid=tid, overrides=overrides, lex=False)
+
+
+def record_many(items, lex: bool = True) -> List[Dict[str, Any]]:
     """items: (text, dialect, templater, fname, tid, overrides) -> flat list of traces."""
     from .par import pmap
 
     out: List[Dict[str, Any]] = []
-    for traces in pmap(_one, list(items)):
+    for traces in pmap(_one if lex else _one_nolex, list(items)):
         out.extend(traces)
     return out
 
@@ -131,3 +139,115 @@ def strip_for_tlc(trace: Dict[str, Any]) -> Dict[str, Any]:
         e = {k: v for k, v in e.items() if k not in ("tb", "msg")}
         evs.append(e)
     return {"id": trace["id"], "events": evs}
+
+
+# ----------------------------------------------------------------------------------- parse
+NONCODE = ("ws", "nl", "comment")
+
+
+def leaf_rows(tf, segs, intern: Dict[str, int]) -> List[list]:
+    rows = token_rows(tf, segs)
+    for r, seg in zip(rows, segs):
+        r.append(intern.setdefault(seg.raw, len(intern) + 1))
+    return rows
+
+
+def node_rows(tree) -> List[list]:
+    """Preorder list of the non-leaf nodes: [type, lo, hi, t0, t1, s0, s1, exempt, kid_t0s, first_kind, last_kind]
+    where [lo, hi) is the node's range in tree.raw_segments (1-based lo, exclusive hi -> TLA+ lo..hi-1)."""
+    rows: List[list] = []
+    counter = [0]
+
+    def walk(seg, is_root):
+        if not seg.segments:
+            counter[0] += 1
+            return
+        lo = counter[0] + 1
+        idx = len(rows)
+        rows.append(None)
+        for ch in seg.segments:
+            walk(ch, False)
+        hi = counter[0] + 1
+        pm = seg.pos_marker
+        kids = seg.segments
+        nonmeta = [c for c in kids if not c.is_meta]
+        first = kind_of(nonmeta[0]) if nonmeta else "none"
+        last = kind_of(nonmeta[-1]) if nonmeta else "none"
+        if nonmeta and nonmeta[0].segments:
+            first = "node"
+        if nonmeta and nonmeta[-1].segments:
+            last = "node"
+        rows[idx] = [seg.type, lo, hi,
+                     int(pm.templated_slice.start), int(pm.templated_slice.stop),
+                     int(pm.source_slice.start), int(pm.source_slice.stop),
+                     bool(is_root or seg.is_type("unparsable") or seg.can_start_end_non_code),
+                     [[int(c.pos_marker.templated_slice.start), int(c.pos_marker.templated_slice.stop)] for c in kids if c.pos_marker],
+                     first, last, kind_of(kids[0]) if not kids[0].segments else "node",
+                     kind_of(kids[-1]) if not kids[-1].segments else "node"]
+
+    walk(tree, True)
+    return rows
+
+
+def record_parse(text: str, dialect: str, templater: str, fname: str = "<string>", tid: str = "",
+                 overrides: Optional[dict] = None) -> List[Dict[str, Any]]:
+    """Template + lex + parse; one trace per variant with events Template, Lex, Parse (or Crash)."""
+    from sqlfluff.core.errors import SQLFluffSkipFile
+    from sqlfluff.core.linter.linter import Linter
+
+    overrides = dict(overrides or {})
+    cfg = sq.cfg_for(dialect, templater, fname, **overrides)
+    lnt = sq.linter(cfg)
+    base = {"id": tid, "input": {"text": text, "dialect": dialect, "templater": templater, "fname": fname,
+                                   "overrides": overrides}}
+    try:
+        config = cfg.copy()
+        config.process_raw_file_for_config(text, fname)
+        rendered = lnt.render_string(text, fname, config, "utf8")
+    except SQLFluffSkipFile:
+        return [dict(base, id=tid + "#skip", events=[{"ev": "Skip"}])]
+    except Exception as e:
+        return [dict(base, id=tid + "#crash", events=[{"ev": "Crash", "stage": "template", "exc": type(e).__name__,
+                                                        "msg": str(e)[:200], "tb": traceback.format_exc()[-600:]}])]
+    if not rendered.templated_variants:
+        return [dict(base, id=tid + "#tmp", events=[{"ev": "TemplateFail", "violations": len(rendered.templater_violations)}])]
+    out = []
+    for k, tf in enumerate(rendered.templated_variants):
+        events = [dict(template_event(tf), ev="Template", variant=k, tmp=len(rendered.templater_violations))]
+        intern: Dict[str, int] = {}
+        try:
+            tokens, lxr = Linter._lex_templated_file(tf, config)
+        except Exception as e:
+            events.append({"ev": "Crash", "stage": "lex", "exc": type(e).__name__, "msg": str(e)[:200], "tb": traceback.format_exc()[-600:]})
+            out.append(dict(base, id=f"{tid}#v{k}", events=events))
+            continue
+        try:
+            tree, prs = Linter._parse_tokens(tokens, config, fname=fname)
+        except Exception as e:
+            events.append({"ev": "Crash", "stage": "parse", "exc": type(e).__name__, "msg": str(e)[:200], "tb": traceback.format_exc()[-600:]})
+            out.append(dict(base, id=f"{tid}#v{k}", events=events))
+            continue
+        ev = {"ev": "Parse", "toks": leaf_rows(tf, tokens, intern), "nprs": len(prs), "nlxr": len(lxr), "tree": tree is not None}
+        if tree is not None:
+            ev["leaves"] = leaf_rows(tf, tree.raw_segments, intern)
+            ev["nodes"] = node_rows(tree)
+            ev["nunparsable"] = sum(1 for _ in tree.iter_unparsables())
+        else:
+            ev["leaves"], ev["nodes"], ev["nunparsable"] = [], [], 0
+        events.append(ev)
+        out.append(dict(base, id=f"{tid}#v{k}", events=events))
+    return out
+
+
+def _one_parse(item):
+    text, dialect, templater, fname, tid, overrides = item
+    return record_parse(text, dialect, templater, fname=fname, tid=tid, overrides=overrides)
+
+
+def record_many_parse(items) -> List[Dict[str, Any]]:
+    from .par import pmap
+
+    out: List[Dict[str, Any]] = []
+    for traces in pmap(_one_parse, list(items), chunksize=4):
+        out.extend(traces)
+    return out
